@@ -59,6 +59,7 @@ def check(ctx):
     provenance(ctx, P)
     sentinel_tests(ctx, P)
     rearm(ctx, P, iters)
+    armed_while_waiting(ctx, P, iters)
     records(ctx, P)
     ctx.assume("distributions return non-negative samples (the property's own proviso; C10 checks the engine validates them)")
 
@@ -451,6 +452,73 @@ def rearm(ctx, P, iters):
                 ctx.violation(ob2, "R7.fired-timer", "%s.have_event" % cls.name, "event_dates_dict advance; find_next_event_date", "fired-timer-not-disarmed",
                               "after an arrival the stream's next date must be advanced exactly once and the minimum recomputed", loc(fn), witness(st))
                 break
+
+
+def armed_while_waiting(ctx, P, iters):
+    """The cached next class change (find_next_class_change, run by decide_class_change) scans only customers WITHOUT a server.  A timer armed while the
+    customer still holds (or already holds) its server is invisible to that scan; it is found later, when its date is already in the past."""
+    ob = ctx.ob("ARMW", "decide_class_change(X) is not followed by the detach of X on the same path (the cached scan would miss the timer) and does not follow a server-less service start of X")
+    from .. import typestate
+    done = set()
+    n = 0
+    for view in family_views(P, "Node"):
+        roots = set()
+        for m in view.methods():
+            cls, fn = view.resolve(m)
+            if any(isinstance(x, ast.Call) and call_name(x) == "decide_class_change" for x in ast.walk(fn)):
+                roots |= {x for x in rules.effective_names(P, cls, fn) if view.resolve(x)}
+        for root in sorted(roots):
+            cls, fn = view.resolve(root)
+            params = [a.arg for a in fn.args.args][1:]
+
+            def keep(e):
+                if e.kind in ("call", "enter"):
+                    return e.d["meth"] in ("attach_server", "detatch_server", "decide_class_change")
+                if e.kind == "assign" and not e.d.get("local"):
+                    return e.d["target"].endswith(".service_start_date") or e.d["target"].endswith(".server")
+                return False
+            w = Walker(P, view, keep=keep, inline=lambda ev: ev.d["meth"] not in typestate.NO_INLINE and ev.d["meth"] not in ("attach_server", "detatch_server"), loop_iters=iters)
+            for st in w.paths_of(cls, fn):
+                if st.status == "raise":
+                    continue
+                has_server, started, armed = set(), set(), {}
+                for e in st.events:
+                    reason = None
+                    if e.kind == "assign":
+                        tok, field = e.d["target"].rsplit(".", 1)
+                        if field == "server":
+                            (has_server.add if e.d["value"] not in ("False", "None") else has_server.discard)(tok)
+                        elif e.d["value"] not in ("False", "None"):
+                            started.add(tok)
+                        else:
+                            started.discard(tok)
+                        continue
+                    if e.kind == "enter":
+                        continue
+                    args = e.d["args"] + ["?", "?"]
+                    if e.d["meth"] == "attach_server":
+                        has_server.add(args[1])
+                        armed.pop(args[1], None)       # a customer that holds a server is skipped by the scan: its timer no longer matters
+                    elif e.d["meth"] == "detatch_server":
+                        x = args[1]
+                        has_server.discard(x)
+                        started.discard(x)
+                        if x in armed:
+                            reason, msg, ev = "timer-armed-before-detach", "the displaced customer %s still holds its server when its class-change timer is armed" % x, armed.pop(x)
+                    else:
+                        x = args[0]
+                        n += 1
+                        ob.ok("%s.%s:%s" % (view.name, root, e.frame.qual), "%s (from %s): decide_class_change(%s); holding a server: %s; started: %s" % (e.frame.qual, root, x, sorted(has_server), sorted(started)))
+                        armed[x] = e
+                        if x in started and x not in has_server:
+                            reason, msg, ev = "timer-armed-while-served", "%s has started service without a server object (infinite-server node) before its class-change timer is armed, so the scan still sees it" % x, e
+                    if reason and (ev.frame.qual, reason) not in done:
+                        done.add((ev.frame.qual, reason))
+                        ctx.violation(ob, "R4.must-precede", ev.frame.qual, ev.text, reason,
+                                      "%s: decide_class_change rescans the waiting customers (those without a server) for the earliest class-change date; a timer armed while the customer "
+                                      "holds a server is overlooked and only found once its date lies in the past (an event before `now`), one armed for a customer in service without a "
+                                      "server object fires during the service" % msg, ev.where, witness(st))
+    ctx.floor("decide_class_change call events", n, 3)
 
 
 def records(ctx, P):
